@@ -138,6 +138,8 @@ if __name__ == "__main__":
         ingest(sys.argv[2], sys.argv[3:] or ["1", "2", "3"], root="/tmp/mut5", tag="r5.")
     elif cmd == "ingest6":
         ingest(sys.argv[2], sys.argv[3:] or ["1", "2", "3"], root="/tmp/mut6", tag="r6.")
+    elif cmd == "ingest7":
+        ingest(sys.argv[2], sys.argv[3:] or ["1", "2", "3"], root="/tmp/mut7", tag="r7.")
     elif cmd == "eval":
         a = [x for x in sys.argv[2:] if x != "--all"]
         evaluate(a, "--all" in sys.argv)
